@@ -84,6 +84,42 @@ func verifC01DecUsers(s string) []verifC01User {
 	return us
 }
 
+func verifC01DecExcl(s string) []conf.AuthInternalUserPermission {
+	if s == "_" {
+		return nil
+	}
+	var ps []conf.AuthInternalUserPermission
+	for _, pp := range strings.Split(s, "+") {
+		a := strings.Split(pp, ":")
+		ps = append(ps, conf.AuthInternalUserPermission{Action: conf.AuthAction(verifutil.UnHexS(a[0])), Path: verifutil.UnHexS(a[1])})
+	}
+	return ps
+}
+
+// "reset <users> <HTTPExclude> <JWTExclude>": exclude lists belong to the http / jwt methods; half of the histories
+// set them (often covering every action) to make sure the internal method never consults them.
+func verifC01ResetOp(r *verifutil.Rand, us []verifC01User) string {
+	if r.Bool() {
+		return "reset " + verifC01EncUsers(us)
+	}
+	mk := func() string {
+		if r.Chance(1, 4) {
+			return "_"
+		}
+		var l []string
+		for _, a := range verifC01Actions {
+			if r.Chance(2, 3) {
+				l = append(l, verifutil.HexS(a)+":"+verifutil.HexS(r.Pick("", "", "", "cam1", "~.*", "live")))
+			}
+		}
+		if len(l) == 0 {
+			return "_"
+		}
+		return strings.Join(l, "+")
+	}
+	return "reset " + verifC01EncUsers(us) + " " + mk() + " " + mk()
+}
+
 func verifC01DecCV(s string) func(string, string) bool {
 	if s == "n" {
 		return nil
@@ -119,6 +155,12 @@ func verifC01Exec(op string) string {
 	case "reset":
 		us := verifC01DecUsers(f[1])
 		verifC01M = &Manager{Method: conf.AuthMethodInternal, InternalUsers: us}
+		if len(f) >= 4 { // settings of the *other* methods: must be ignored by the internal method
+			verifC01M.HTTPExclude = verifC01DecExcl(f[2])
+			verifC01M.JWTExclude = verifC01DecExcl(f[3])
+			verifC01M.HTTPAddress = "http://127.0.0.1:1/never"
+			verifC01M.JWTJWKS = "http://127.0.0.1:1/never"
+		}
 		return fmt.Sprintf("ok %d", len(verifC01M.InternalUsers))
 	case "reload":
 		us := verifC01DecUsers(f[1])
@@ -586,7 +628,7 @@ func verifC01Sticky(r *verifutil.Rand, thorough bool) []string {
 	q := &verifC01Q{action: action, path: path, user: pu, pass: pp, cv: "n", ask: r.Bool()}
 	q.ip = [][]byte{{10, 1, 2, 3}, {10, 1, 255, 1}, {0, 0, 0, 0, 0, 0, 0, 0, 0, 0, 0xff, 0xff, 10, 1, 0, 9}}[r.Intn(3)]
 	orig := us
-	ops := []string{"reset " + verifC01EncUsers(us), q.op(r, us)}
+	ops := []string{verifC01ResetOp(r, us), q.op(r, us)}
 	if r.Bool() {
 		ops = append(ops, q.op(r, us)) // same request again, no reload
 	}
@@ -770,7 +812,7 @@ func verifC01PathHist(r *verifutil.Rand, i int, thorough bool) []string {
 		}
 		us = append(us, u)
 	}
-	ops := []string{"reset " + verifC01EncUsers(us)}
+	ops := []string{verifC01ResetOp(r, us)}
 	n := 6 + r.Intn(5)
 	if thorough {
 		n = 6 + r.Intn(12)
@@ -824,7 +866,7 @@ func verifC01Gen(r *verifutil.Rand, i int, thorough bool) []string {
 		return verifC01Sticky(r, thorough)
 	}
 	us := verifC01Users(r)
-	ops := []string{"reset " + verifC01EncUsers(us)}
+	ops := []string{verifC01ResetOp(r, us)}
 	n := 3 + r.Intn(6)
 	if thorough {
 		n = 3 + r.Intn(12)
